@@ -414,3 +414,195 @@ Proof.
   unfold test_name. destruct n as [|c n']; [now left|]. intros H. apply andb_true_iff in H as [H1 H2].
   right. split; [exact H1|]. destruct (lm_get m (c :: n')); [eauto|discriminate].
 Qed.
+
+(* ------------------------------------------------------------------ the maps the commands build *)
+Lemma allreach_add m l : allreach m -> lm_get m (l_name l) = None ->
+  (l_base l = [] \/ lm_get m (l_base l) <> None) -> allreach (lm_set m l).
+Proof.
+  intros HA Hf Hb. apply gforest_allreach.
+  - apply (gforest_ext (g_add (g_of m) (l_name l) (l_base l))).
+    + intros x. unfold g_add. now rewrite g_of_set.
+    + apply gforest_add; [now apply allreach_gforest|now apply g_of_none|].
+      destruct Hb as [Hb|Hb]; [now left|right]. now rewrite g_of_none.
+  - intros x Hx Hbx. rewrite g_of_set. destruct (beq (l_name l) (l_base x)); [discriminate|].
+    apply lm_set_in in Hx as [->|Hx].
+    + destruct Hb as [Hb|Hb]; [congruence|]. now rewrite g_of_none.
+    + now apply (allreach_bres m HA).
+Qed.
+
+Lemma has_child_false m n : has_child m n = false -> forall l, In l m -> l_base l <> n.
+Proof.
+  unfold has_child. intros H l Hl E. assert (existsb (fun l0 => beq (l_base l0) n) m = true); [|congruence].
+  apply existsb_exists. exists l. split; [exact Hl|]. now apply beq_true.
+Qed.
+Lemma allreach_del m n : allreach m -> has_child m n = false -> allreach (lm_del m n).
+Proof.
+  intros HA Hc. pose proof (has_child_false _ _ Hc) as Hc'. apply gforest_allreach.
+  - apply (gforest_ext (g_del (g_of m) n)).
+    + intros x. unfold g_del. now rewrite g_of_del.
+    + apply gforest_del; [now apply allreach_gforest|].
+      intros x y Hg. apply g_of_some in Hg as (l & El & <-). apply Hc'. eapply lm_get_in; eauto.
+  - intros x Hx Hbx. apply lm_del_in in Hx as [Hx _]. rewrite g_of_del.
+    destruct (beq n (l_base x)) eqn:E; [apply beq_true in E; symmetry in E; now apply Hc' in E|].
+    now apply (allreach_bres m HA).
+Qed.
+
+Lemma nodup_get m l : NoDup (map l_name m) -> In l m -> lm_get m (l_name l) = Some l.
+Proof.
+  induction m as [|y r IH]; cbn [map lm_get]; [intros _ []|]. intros ND [->|Hl].
+  - now rewrite beq_refl.
+  - inversion ND as [|? ? Hy Hr]; subst. destruct (beq (l_name y) (l_name l)) eqn:E.
+    + apply beq_true in E. exfalso. apply Hy. rewrite E. now apply in_map.
+    + now apply IH.
+Qed.
+Lemma lm_set_in_nodup m l x : NoDup (map l_name m) -> In x (lm_set m l) ->
+  x = l \/ (In x m /\ l_name x <> l_name l).
+Proof.
+  induction m as [|y r IH]; cbn [map lm_set]; intros ND Hx.
+  - destruct Hx as [<-|[]]. now left.
+  - inversion ND as [|? ? Hy Hr]; subst. destruct (beq (l_name y) (l_name l)) eqn:E.
+    + destruct Hx as [<-|Hx]; [now left|]. right. split; [now right|].
+      apply beq_true in E. intros E2. apply Hy. rewrite E, <- E2. now apply in_map.
+    + destruct Hx as [<-|Hx].
+      * right. split; [now left|]. now apply beq_false.
+      * destruct (IH Hr Hx) as [->|[H1 H2]]; [now left|]. right. split; [now right|exact H2].
+Qed.
+Lemma lm_set_names_nodup m l : NoDup (map l_name m) -> NoDup (map l_name (lm_set m l)).
+Proof.
+  induction m as [|y r IH]; cbn [map lm_set]; intros ND.
+  - constructor; [intros []|constructor].
+  - inversion ND as [|? ? Hy Hr]; subst. destruct (beq (l_name y) (l_name l)) eqn:E.
+    + apply beq_true in E. cbn [map]. rewrite <- E. exact ND.
+    + cbn [map]. constructor; [|now apply IH]. intros Hin. apply in_map_iff in Hin as (x & Ex & Hx).
+      apply lm_set_in in Hx as [->|Hx].
+      * apply beq_false in E. congruence.
+      * apply Hy. rewrite <- Ex. now apply in_map.
+Qed.
+Lemma NoDup_map_filter {A B} (f : A -> B) (p : A -> bool) l : NoDup (map f l) -> NoDup (map f (filter p l)).
+Proof.
+  induction l as [|x r IH]; cbn; [auto|]. intros ND. inversion ND as [|? ? Hx Hr]; subst.
+  destruct (p x); [|now apply IH]. cbn. constructor; [|now apply IH].
+  intros Hin. apply Hx. apply in_map_iff in Hin as (y & E & Hy). apply filter_In in Hy as [Hy _].
+  rewrite <- E. now apply in_map.
+Qed.
+
+Definition set_kids (nb : bytes) (K : list layer) (m0 : lmap) : lmap :=
+  fold_left (fun m k => lm_set m (set_base k nb)) K m0.
+Lemma set_kids_in nb x : forall K m0, NoDup (map l_name m0) -> In x (set_kids nb K m0) ->
+  (exists k, In k K /\ x = set_base k nb) \/ (In x m0 /\ ~ In (l_name x) (map l_name K)).
+Proof.
+  induction K as [|k K IH]; intros m0 ND Hx; cbn [set_kids fold_left] in Hx.
+  - right. split; [exact Hx|intros []].
+  - fold (set_kids nb K (lm_set m0 (set_base k nb))) in Hx.
+    destruct (IH _ (lm_set_names_nodup _ _ ND) Hx) as [(k2 & H1 & H2)|[H1 H2]].
+    + left. exists k2. split; [now right|exact H2].
+    + apply (lm_set_in_nodup _ _ _ ND) in H1 as [->|[H1 H3]].
+      * left. exists k. split; [now left|reflexivity].
+      * right. split; [exact H1|]. cbn [map]. intros [E|Hin]; [|contradiction].
+        apply H3. cbn. now rewrite E.
+Qed.
+Lemma g_of_set_kids nb x : forall K m0,
+  g_of (set_kids nb K m0) x = if memb x (map l_name K) then Some nb else g_of m0 x.
+Proof.
+  induction K as [|k K IH]; intros m0; cbn [set_kids fold_left map]; [reflexivity|].
+  fold (set_kids nb K (lm_set m0 (set_base k nb))). rewrite IH, g_of_set.
+  unfold memb. cbn [existsb l_name set_base l_base]. rewrite (beq_sym x (l_name k)).
+  destruct (existsb (beq x) (map l_name K)); [now rewrite orb_true_r|].
+  rewrite orb_false_r. reflexivity.
+Qed.
+
+Lemma kids_sound e m old k : In k (children_in_order e m old) -> In k m /\ l_base k = old.
+Proof.
+  unfold children_in_order. intros H. apply in_app_or in H as [H|H].
+  - apply in_flat_map in H as (n & _ & H). destruct (lm_get _ n) as [l|] eqn:E; [|destruct H].
+    destruct H as [<-|[]]. apply lm_get_in in E. apply filter_In in E as [E1 E2]. split; [exact E1|now apply beq_true].
+  - apply filter_In in H as [H _]. apply filter_In in H as [E1 E2]. split; [exact E1|now apply beq_true].
+Qed.
+Lemma kids_complete e m old k : In k m -> l_base k = old -> In (l_name k) (map l_name (children_in_order e m old)).
+Proof.
+  intros Hk Hb. unfold children_in_order. set (kids := filter (fun l => beq (l_base l) old) m).
+  assert (Hkk : In k kids) by (apply filter_In; split; [exact Hk|now apply beq_true]).
+  rewrite map_app. apply in_or_app. destruct (memb (l_name k) (e_order e)) eqn:E.
+  - left. apply memb_In in E. destruct (lm_get_of_in _ _ Hkk) as (k' & Ek').
+    rewrite <- (lm_get_name _ _ _ Ek'). apply in_map. apply in_flat_map. exists (l_name k).
+    split; [exact E|]. rewrite Ek'. now left.
+  - right. apply in_map. apply filter_In. split; [exact Hkk|]. now rewrite E.
+Qed.
+
+Lemma lm_get_app a b x : lm_get (a ++ b) x = match lm_get a x with Some y => Some y | None => lm_get b x end.
+Proof. induction a as [|y r IH]; cbn; [reflexivity|]. destruct (beq (l_name y) x); [reflexivity|exact IH]. Qed.
+
+Definition renamed_map e (m : lmap) (l : layer) (old new p : bytes) : lmap :=
+  set_kids new (children_in_order e m old) (lm_del m old) ++ [set_name_path l new p].
+
+Lemma g_of_renamed e m l old new p : allreach m -> NoDup (map l_name m) ->
+  lm_get m old = Some l -> old <> [] -> old <> new -> lm_get m new = None ->
+  forall x, g_of (renamed_map e m l old new p) x = g_ren (g_of m) old new x.
+Proof.
+  intros HA ND El Ho Hon Hf x.
+  assert (Hloop : g_of m old <> Some old).
+  { intros E. destruct (allreach_gforest _ HA _ _ E) as (k & Hk).
+    assert (greach (g_of m) old (S k)) by (econstructor; eauto).
+    pose proof (greach_det _ _ _ Hk _ H). lia. }
+  assert (Hkid : forall y, memb y (map l_name (children_in_order e m old)) = true <-> g_of m y = Some old).
+  { intros y. rewrite memb_In. split.
+    - intros H. apply in_map_iff in H as (k & <- & Hk). apply kids_sound in Hk as [H1 H2].
+      apply g_of_some. exists k. split; [now apply nodup_get|exact H2].
+    - intros H. apply g_of_some in H as (k & Ek & Eb). rewrite <- (lm_get_name _ _ _ Ek).
+      apply kids_complete; [eapply lm_get_in; eauto|exact Eb]. }
+  unfold renamed_map, g_of at 1. rewrite lm_get_app.
+  pose proof (g_of_set_kids new x (children_in_order e m old) (lm_del m old)) as G.
+  unfold g_of at 1 in G. unfold g_ren.
+  destruct (beq x new) eqn:E1.
+  - apply beq_true in E1. subst x.
+    destruct (memb new (map l_name (children_in_order e m old))) eqn:EK.
+    { apply Hkid in EK. apply g_of_some in EK as (k & Ek & _). congruence. }
+    rewrite g_of_del in G. assert (beq old new = false) as E2 by now apply beq_false. rewrite E2 in G.
+    assert (g_of m new = None) as E3 by now apply g_of_none. rewrite E3 in G.
+    destruct (lm_get (set_kids new _ _) new); [discriminate|].
+    cbn [lm_get set_name_path l_name l_base option_map]. rewrite beq_refl. cbn.
+    symmetry. apply g_of_some. eauto.
+  - destruct (memb x (map l_name (children_in_order e m old))) eqn:EK.
+    + pose proof (proj1 (Hkid x) EK) as Eg. destruct (lm_get (set_kids new _ _) x) as [y|]; [|discriminate].
+      cbn in G |- *. rewrite G.
+      destruct (beq x old) eqn:E2; [apply beq_true in E2; subst x; contradiction|].
+      rewrite Eg. unfold ren. now rewrite beq_refl.
+    + rewrite g_of_del in G. rewrite (beq_sym old x) in G. destruct (beq x old) eqn:E2.
+      * destruct (lm_get (set_kids new _ _) x); [discriminate|].
+        cbn [lm_get set_name_path l_name]. rewrite (beq_sym new x), E1. reflexivity.
+      * destruct (lm_get (set_kids new _ _) x) as [y|].
+        -- cbn in G |- *. rewrite G. destruct (g_of m x) as [b|] eqn:Eg; [|discriminate].
+           injection G as <-. unfold ren. destruct (beq (l_base y) old) eqn:E3; [|reflexivity].
+           apply beq_true in E3. exfalso. rewrite E3 in Eg. apply Hkid in Eg. congruence.
+        -- cbn [lm_get set_name_path l_name]. rewrite (beq_sym new x), E1. cbn in G |- *. now rewrite <- G.
+Qed.
+
+Lemma allreach_renamed e m l old new p : allreach m -> NoDup (map l_name m) ->
+  lm_get m old = Some l -> old <> [] -> new <> [] -> lm_get m new = None ->
+  allreach (renamed_map e m l old new p).
+Proof.
+  intros HA ND El Ho Hn Hf.
+  assert (Hon : old <> new) by (intros <-; congruence).
+  pose proof (g_of_renamed e m l old new p HA ND El Ho Hon Hf) as G.
+  assert (Hloop : g_of m old <> Some old).
+  { intros E. destruct (allreach_gforest _ HA _ _ E) as (k & Hk).
+    assert (greach (g_of m) old (S k)) by (econstructor; eauto).
+    pose proof (greach_det _ _ _ Hk _ H). lia. }
+  assert (Hgo : g_of m old = Some (l_base l)) by (apply g_of_some; eauto).
+  assert (Hgn : g_of m new = None) by now apply g_of_none.
+  assert (Hres : forall b, b <> [] -> g_of m b <> None -> b <> old -> g_ren (g_of m) old new b <> None).
+  { intros b Hb Hg Hbo. unfold g_ren. destruct (beq b new) eqn:E1; [apply beq_true in E1; congruence|].
+    destruct (beq b old) eqn:E2; [apply beq_true in E2; congruence|]. destruct (g_of m b); [discriminate|congruence]. }
+  apply gforest_allreach.
+  - apply (gforest_ext (g_ren (g_of m) old new)); [intros x; now rewrite G|].
+    apply gforest_ren; auto. now apply allreach_gforest.
+  - intros x Hx Hbx. rewrite G. unfold renamed_map in Hx. apply in_app_or in Hx as [Hx|[<-|[]]].
+    + apply set_kids_in in Hx; [|apply NoDup_map_filter; exact ND].
+      destruct Hx as [(k & Hk & ->)|[Hx Hnk]].
+      * cbn [set_base l_base]. unfold g_ren. rewrite beq_refl. congruence.
+      * apply lm_del_in in Hx as [Hx Hxo]. apply Hres; [exact Hbx|now apply (allreach_bres m HA)|].
+        intros E. apply Hnk. now apply kids_complete.
+    + cbn [set_name_path l_base] in *. apply Hres; [exact Hbx| |].
+      * apply (allreach_bres m HA); [eapply lm_get_in; eauto|exact Hbx].
+      * intros E. apply Hloop. now rewrite Hgo, E.
+Qed.
